@@ -199,6 +199,15 @@ func runReplay(job *Job) Result {
 			} else if canon(r.Res) != canon([]byte(got)) {
 				bad = "differs"
 			}
+			if r.Fn == "ParseURIReset" && strings.Contains(got, `"same":false`) {
+				// C12: after Reset() a parsed-URI object behaves like a new one (real against real)
+				declBad++
+				if len(res.Violations) < job.MaxViol {
+					res.Violations = append(res.Violations, Violation{Prop: "C12", What: "a parsed-URI object used before and Reset() differs from a new one",
+						Text: r.Fn + string(args), Detail: "real: " + got, Sig: "urireset"})
+				}
+				continue
+			}
 			if (r.Fn == "URIParamsEq" || r.Fn == "URIHdrsEq") && strings.Contains(got, `"shifted":`) {
 				// C15 (entry points agree): the comparison of two lists must not depend on where they sit in their buffers
 				declBad++
